@@ -218,8 +218,10 @@ def delimited_rows(delimited_source, data_format):
         delimited_stream = delimited_source
         has_opened_delimited_stream = False
     keywords = _as_delimited_keywords(data_format)
-    # Lift the limit of 131072 characters csv imposes on an item (the limit must fit a C long).
-    csv.field_size_limit(min(sys.maxsize, 2 ** 31 - 1))
+    # Lift the limit of 131072 characters csv imposes on an item (the limit must fit a C long), but never lower a
+    # limit the application has already raised because the setting affects the whole process.
+    if csv.field_size_limit() < min(sys.maxsize, 2 ** 31 - 1):
+        csv.field_size_limit(min(sys.maxsize, 2 ** 31 - 1))
     try:
         delimited_reader = _compat.csv_reader(delimited_stream, **keywords)
         try:
